@@ -1,7 +1,7 @@
 """X01 - specification coverage BEYOND the listed properties (not registered in MANIFEST.json; `./check X01`).
 The specifications keep growing to cover more of numqi's behaviour; parts that belong to none of C01..C20 are decided here, so
 that a defect in them can never be reported against a listed property.
-specs: specs/extra/{MC_Qudit,MC_SymplecticGS,MC_PauliOrbit,MC_SymBasis,MC_SchurWeyl,MC_GroupMisc,MC_ClosedGME}.tla"""
+specs: specs/extra/{MC_Qudit,MC_SymplecticGS,MC_PauliOrbit,MC_SymBasis,MC_SchurWeyl,MC_GroupMisc,MC_ClosedGME,MC_IndexStore}.tla"""
 import itertools, math, random
 import numpy as np
 from .. import tlc, core
@@ -347,6 +347,61 @@ def run_closed_gme(ctx):
             ctx.violation('X01:closed-gme:exception', type(ex).__name__ + ': ' + str(ex)[:160], dict(kind=st['kind'], arg=list(st['arg'])))
 
 
+def run_index_store(ctx, quick):
+    """MC_IndexStore: histories of save / remove / read on the JSON index store of numqi.unique_determine, replayed on a scratch file;
+    after every step the reply (and the file read back in full) must equal the ordered view of the specification"""
+    import json, os, tempfile
+    import numqi
+    U = numqi.unique_determine
+    r = tlc.run('extra/MC_IndexStore.tla', 'extra/MC_IndexStore.cfg', timeout=1200)
+    ctx.add_model('MC_IndexStore(MaxOps=3)', r)
+    r = tlc.run('extra/MC_IndexStore.tla', 'extra/MC_IndexStore_sim.cfg', simulate=dict(num=40 if quick else 400, file=True), depth=13, seed=ctx.seed + 9, workers=4, timeout=1200)
+    ctx.add_model('MC_IndexStore(sim)', r, exhaustive=False)
+    tmpdir = tempfile.mkdtemp(prefix='numqi-verif-store-')
+    try:
+        for fi, f in enumerate(r.sim_files):
+            beh = tlc.parse_behaviour(f)
+            path = os.path.join(tmpdir, 'store%d.json' % fi)
+            hist = []
+            ctx.case(('store', fi, repr([st[1]['last'] for st in beh[1:]])))
+            for step, (_, st) in enumerate(beh[1:]):
+                last = st['last']
+                op, key, batch, view = last['op'], last['key'], [list(b) for b in last['batch']], [list(v) for v in last['view']]
+                hist.append([op, key, batch])
+                try:
+                    fmt = (fi + step) % 3
+                    if len(batch) == 1 and fmt == 0:
+                        arg = list(reversed(batch[0])) + batch[0][:1]                  # list[int], unsorted with a repeat
+                    elif fmt == 1:
+                        arg = [' '.join(str(x) for x in reversed(b)) for b in batch]     # list[str]
+                    else:
+                        arg = [list(reversed(b)) + b[:1] for b in batch]                # list[list[int]]
+                    if op == 'save':
+                        got = U.save_index_to_file(path, key, arg)
+                    elif op == 'remove':
+                        if not os.path.exists(path):
+                            U.save_index_to_file(path, key, None) if False else open(path, 'w').write('{}')     # the documented precondition: the file exists
+                        U.remove_index_from_file(path, key, arg)
+                        got = U.save_index_to_file(path, key)
+                    else:
+                        got = U.save_index_to_file(path, key)
+                    got = [list(x) for x in got]
+                    whole = U.save_index_to_file(path) if os.path.exists(path) else {}
+                    el = lambda v: list(v[1]) if isinstance(v, tuple) else list(v)
+                    stored = {k: sorted(sorted(el(x)) for x in el(v)) for k, v in st['store'].items()}
+                    ok_all = all(sorted(list(x) for x in whole.get(k, [])) == sorted(list(x) for x in v) for k, v in stored.items())
+                    if got != view or not ok_all:
+                        ctx.violation('X01:index-store:%s' % op, 'after %s the store replies %s, the specification says %s' % (op, got, view), dict(history=hist))
+                        break
+                except Exception as ex:
+                    ctx.violation('X01:index-store:exception', type(ex).__name__ + ': ' + str(ex)[:160], dict(history=hist))
+                    break
+            ctx.traces += 1
+    finally:
+        import shutil
+        shutil.rmtree(tmpdir, ignore_errors=True)
+
+
 def run(ctx):
     quick = ctx.tier == 'quick'
     ctx.rule = ('beyond the listed properties: Weyl-Heisenberg matrices d = 2, 4, 8 (commutation, order, Fourier relation as TLC invariants); symplectic Gram-Schmidt over F2 for every list of '
@@ -361,6 +416,7 @@ def run(ctx):
     run_schurweyl(ctx, quick)
     run_groupmisc(ctx, quick)
     run_closed_gme(ctx)
+    run_index_store(ctx, quick)
     ctx.sample(dict(kind='extra-models', models=[m['model'] for m in ctx.models]))
 
 
